@@ -194,6 +194,11 @@ def _decompress(
     dcomped += dcomp.flush()
     if len(dcomped) > max_size:
         raise zlib.error("decompressed data exceeds maximum size")
+    if not dcomp.eof:
+        # zlib only verifies its checksum when it reaches the end of the
+        # stream: a truncated (or otherwise never-ending) stream would
+        # otherwise be returned as far as it goes, as if it were complete.
+        raise zlib.error("incomplete or truncated zlib stream")
     return dcomped
 
 
